@@ -660,6 +660,73 @@ func scenarios() []scenario {
 			return strings.Join(ids, ","), err
 		}})
 	}
+	// a file in which two trees fill the reader's 4096-byte buffer exactly (blanks after a comma bring
+	// the text up to its ';' to 4096 and 8192 bytes, the second one followed by a blank): every tree
+	// of the file can be drawn
+	{
+		lines := strings.Split(strings.TrimSuffix(numberedTrees(5), "\n"), "\n")
+		padTo := func(l string, n int) string { return "(a," + strings.Repeat(" ", n-len(l)) + l[3:] }
+		lines[1] = padTo(lines[1], 4096)
+		lines[3] = padTo(lines[3], 8192) + " "
+		input := strings.Join(lines, "\n") + "\n"
+		for _, mode := range []string{"stdin", "file"} {
+			mode := mode
+			out = append(out, scenario{name: "gotree sample -n 1 on 5 trees, two of them filling the 4096-byte read buffer exactly (" + mode + ")", cli: true, cells: uniform(tuples(5, 1)), run: func(seed int64) (string, error) {
+				dir := cli.Scratch()
+				args := []string{"sample", "-n", "1", "--seed", strconv.FormatInt(seed, 10)}
+				stdin := input
+				if mode == "file" {
+					cli.Write(dir, "padded.nw", input)
+					args, stdin = append(args, "-i", "padded.nw"), ""
+				}
+				r := cli.Run(dir, stdin, args...)
+				if r.Code != 0 {
+					return "", fmt.Errorf("exit %d: %s", r.Code, r.Stderr)
+				}
+				ids, err := treeIDs(strings.ReplaceAll(r.Stdout, " ", ""))
+				return strings.Join(ids, ","), err
+			}})
+		}
+	}
+	// tip labels written between quotes, some with a blank inside, next to plain ones: the quotes are
+	// part of the name and every tip can be drawn
+	{
+		qn := []string{"'t0 sp'", "'t1'", "t2", "'t3 x'", "t4", "t5"}
+		input := "((" + qn[0] + "," + qn[1] + ")," + qn[2] + ",(" + qn[3] + "," + qn[4] + ")," + qn[5] + ");\n"
+		for _, rev := range []bool{false, true} {
+			rev := rev
+			args := []string{"prune", "--random", "3"}
+			label := "gotree prune --random 3 on 6 tips, three of them with quoted labels"
+			if rev {
+				args = append(args, "-r")
+				label += " (-r: keep)"
+			}
+			out = append(out, scenario{name: label, cli: true, cells: uniform(subsets(6, 3)), run: func(seed int64) (string, error) {
+				r := cli.Run(cli.Scratch(), input, append(append([]string{}, args...), "--seed", strconv.FormatInt(seed, 10))...)
+				if r.Code != 0 {
+					return "", fmt.Errorf("exit %d: %s", r.Code, r.Stderr)
+				}
+				m, err := ref.Parse(strings.TrimSpace(r.Stdout))
+				if err != nil {
+					return "", err
+				}
+				left := map[string]bool{}
+				for _, tip := range m.Tips() {
+					left[tip] = true
+				}
+				var sel []string
+				for i, nm := range qn {
+					if left[nm] == rev {
+						sel = append(sel, strconv.Itoa(i))
+					}
+				}
+				if len(sel) != 3 {
+					return "", fmt.Errorf("%d tips selected, 3 requested (output %s)", len(sel), strings.TrimSpace(r.Stdout))
+				}
+				return strings.Join(sel, ","), nil
+			}})
+		}
+	}
 	// streams: a tree with fewer tips than requested must not change what later trees get
 	{
 		six := []string{"t0", "t1", "t2", "t3", "t4", "t5"}
